@@ -47,6 +47,16 @@ CHECKS = {
             "Python's os.lstat/re and the small glob/date references are trusted; TZ=UTC; undocumented combinations "
             "(ordering on text/bool, negative or unit-less fractional literals) are not generated.",
             "DESIGN.md 4 C02"),
+    "C03": ("exploration",
+            "property-based testing (Hypothesis) with a metamorphic set-algebra oracle over fselect's own atom "
+            "results; bounded-exhaustive enumeration of formula shapes",
+            "S(formula) is compared with the intersection/union/complement combination of S(atom) obtained from the "
+            "same binary on the same tree; all shapes with <= 2 connectives (quick) / <= 3 (thorough) x and/or x leaf "
+            "assignment x every `not` placement are enumerated on a truth-table tree with boundary entries; random "
+            "formulas to depth 5 on generated trees; infix `not like`/`not between` complement laws.",
+            "Atom semantics are taken from fselect itself (C02 checks them); complement relative to the unfiltered "
+            "listing; only always-present columns.",
+            "DESIGN.md 4 C03"),
 }
 
 PENDING = {}
